@@ -93,12 +93,26 @@ def gen_spec(rng, *, nt=(2, 6), marks=(), behs=("ok",), after_p=0.3, nomods=(1, 
                 t["bag"] = {"kind": rng.choice(["dict", "list", "tuple"]), "deps": sorted(rng.sample(t["deps"], k))}   # deps inside a container with plain values
     if pygroup_p:
         for t in tasks:
-            cand = [d for d in t["deps"] if d in inputs and d not in (t.get("bag") or {}).get("deps", [])]
-            if len(cand) >= 2 and t["beh"] == "ok" and rng.random() < pygroup_p:
-                k = rng.randint(2, min(3, len(cand)))
-                t["pyhash_group"] = {"kind": rng.choice(["tuple", "list", "grid"]), "deps": rng.sample(cand, k)}   # order = order inside the value
-                spec.setdefault("nodelete", [])
-                spec["nodelete"] = sorted(set(spec["nodelete"]) | set(t["pyhash_group"]["deps"]))   # read at import time: never deleted
+            if not (t["prods"] and t["beh"] == "ok" and rng.random() < pygroup_p):
+                continue
+            k = rng.randint(2, 3)
+            bagged = (t.get("bag") or {}).get("deps", [])
+            cand = [d for d in t["deps"] if d in inputs and d not in bagged]
+            while len(cand) < k:                      # not enough input dependencies: give the task further inputs
+                free = [n for n in inputs if n not in t["deps"]]
+                if free:
+                    n = rng.choice(free)
+                else:
+                    n = max([x for u in tasks for x in u["deps"] + u["prods"]] + list(inputs)) + 1
+                    inputs[n] = rng.randint(1, 50)
+                    spec["inputs"][str(n)] = inputs[n]
+                t["deps"] = sorted(set(t["deps"]) | {n})
+                cand.append(n)
+            t["pyhash_group"] = {"kind": rng.choice(["tuple", "list", "grid"]), "deps": rng.sample(cand, k)}   # order = order inside the value
+            spec["nodelete"] = sorted(set(spec.get("nodelete", [])) | set(t["pyhash_group"]["deps"]))        # read at import time: never deleted
+            for n in t["pyhash_group"]["deps"]:       # three-digit contents (as every later write): the digit strings of a group cannot be cut in two
+                inputs[n] = rng.randint(100, 999)     # ways, i.e. the separator-less join of finding F3 (C12) is not hit by chance; F3 is replayed apart
+                spec["inputs"][str(n)] = inputs[n]
     if subdir_p:
         sd = {str(m): f"pkg{m}" for m in sorted({t["module"] for t in tasks}) if rng.random() < subdir_p}
         if sd:
